@@ -573,6 +573,15 @@ def gen_elem_script(rng, tag):
                 lo = rng.randint(st, en); hi = rng.randint(lo, en)
                 ops.append("pdr %s %d %d %s" % (nm, lo, hi, m))
             ops.append("pdr %s %d %d %s" % (nm, st, en, "I8"))
+            a_ = rng.randint(st, en); b_ = rng.randint(a_, en)
+            ops.append("epr %s %d %d" % (nm, a_, b_))                       # cgsize_t read: converts and caches the parent arrays
+            lo = rng.randint(st, en); hi = rng.randint(lo, en)             # partial parent write after (cached) partial reads
+            ops.append("pdpw %s %d %d %s" % (nm, lo, hi, iblob("I8", [rng.randint(0, big) for _ in range(4 * (hi - lo + 1))])))
+            for m in ("I4", "I8"):
+                a_ = rng.randint(st, en); b_ = rng.randint(a_, en)
+                ops.append("pdr %s %d %d %s" % (nm, a_, b_, m))
+            ops.append("epr %s %d %d" % (nm, min(a_, lo), max(b_, hi)))
+            ops.append("pdr %s %d %d %s" % (nm, st, en, "I4"))
             # polyhedral faces: offsets travel with the memory type too
             pn = "P%s%s%s" % (tag, s[1], m0[1])
             n = rng.randint(2, 4)
@@ -602,6 +611,40 @@ def gen_elem_script(rng, tag):
                 n += k
                 ops.append("ei %s" % pn)
                 ops.append("pr %s 1 %d %s" % (pn, n, rng.choice(["I4", "I8"])))
+    # size-changing replacements on an inner range followed by real elements, connectivity not cached (after a reopen):
+    # the tail is relocated in the file; never 'ea' on these sections (whole-section read with reserved space: C10's finding)
+    qs = []
+    for s in ("I4", "I8"):
+        for m0 in ("I4", "I8"):
+            qn = "Q%s%s%s" % (tag, s[1], m0[1])
+            n = rng.randint(3, 6)
+            sizes = [rng.randint(3, 6) for _ in range(n)]
+            offs = [0]
+            for z in sizes:
+                offs.append(offs[-1] + z)
+            ops.append("sec %s %s ngon 1 %d %d" % (qn, s, n, offs[-1] + rng.choice([0, 0, 4])))
+            ops.append("pw %s 1 %d %s %s %s" % (qn, n, m0, iblob(m0, [node() for _ in range(offs[-1])]), iblob(m0, offs)))
+            qs.append((qn, n, sizes))
+    ops.append("reopen")
+    for qn, n, sizes in qs:
+        for rnd in range(3):
+            lo = rng.randint(1, n - 1); hi = rng.randint(lo, n - 1)
+            m = rng.choice(["I4", "I8"])
+            old = sum(sizes[lo - 1:hi])
+            for _ in range(10):
+                sz = [rng.randint(3, 6) for _ in range(hi - lo + 1)]
+                if sum(sz) != old and (rnd != 0 or sum(sz) < old):       # first a shrink: always fits the file
+                    break
+            of = [0]
+            for z in sz:
+                of.append(of[-1] + z)
+            ops.append("pw %s %d %d %s %s %s" % (qn, lo, hi, m, iblob(m, [node() for _ in range(of[-1])]), iblob(m, of)))
+            sizes[lo - 1:hi] = sz
+            ops.append("pr %s 1 %d %s" % (qn, n, rng.choice(["I4", "I8"])))
+            a_ = rng.randint(1, n); b_ = rng.randint(a_, n)
+            ops.append("pr %s %d %d %s" % (qn, a_, b_, rng.choice(["I4", "I8"])))
+            if rnd == 1:
+                ops.append("reopen")
     ops.append("reopen")
     for o in list(ops):
         if o.startswith("ei ") or o.startswith("ea "):
